@@ -369,7 +369,10 @@ func (e *CoreExtension) filterSplit(value interface{}, args ...interface{}) (int
 	if len(delimiter) > 1 {
 		// Convert delimiter string to a regex character class
 		pattern := "[" + regexp.QuoteMeta(delimiter) + "]"
-		re := regexp.MustCompile(pattern)
+		re, err := regexp.Compile(pattern)
+		if err != nil {
+			return nil, fmt.Errorf("invalid split delimiter %q: %w", delimiter, err)
+		}
 
 		if limit > 0 {
 			// Manual split with limit
